@@ -2,7 +2,7 @@
    Directives: ExtrOcamlBasic only; N/Z/positive stay Coq's datatypes. *)
 Require Extraction.
 Require Import ExtrOcamlBasic.
-From OrdV Require Import Base.Prelude Codec.Envelope.
+From OrdV Require Import Base.Prelude Codec.Envelope Codec.Cbor.
 Cd "../extract/gen".
-Extraction "x_envelope.ml" run_C27.
+Extraction "x_envelope.ml" run_C27 run_C28.
 Cd "../../coq".
